@@ -1411,7 +1411,12 @@ pub fn execute(cfg: &RunCfg, run_no: u32) -> RunRecord {
             let data = mk_vec();
             let it = {
                 let _t = alloc::track();
-                data.into_con_iter()
+                // both public constructors
+                if seed & 1 == 0 {
+                    data.into_con_iter()
+                } else {
+                    ConIterOfVec::from(data)
+                }
             };
             drive(cfg, it)
         }
@@ -1478,7 +1483,11 @@ pub fn execute(cfg: &RunCfg, run_no: u32) -> RunRecord {
             let data = mk_vec();
             let it = {
                 let _t = alloc::track();
-                probe_of(data.into_iter(), n, cfg).into_con_iter()
+                if seed & 1 == 0 {
+                    probe_of(data.into_iter(), n, cfg).into_con_iter()
+                } else {
+                    ConIterOfIter::from(probe_of(data.into_iter(), n, cfg))
+                }
             };
             drive(cfg, it)
         }
